@@ -139,6 +139,9 @@ def mesh_case(draw, dims=(2, 3)):
         "d": draw(st.sampled_from(list(dims))),
         "src": draw(st.sampled_from(["list", "list", "grid", "delaunay", "closed", "closed"])),
         "aseed": draw(st.integers(0, 2**16)),
+        # the triangle list may be stored in any integer dtype wide enough for the vertex indices (compact meshes
+        # are routinely kept as uint16 / uint8); None = whatever the constructor produced
+        "tl_dtype": draw(st.sampled_from([None, None, None, "int32", "uint16", "uint8", "int64"])),
     }
     d, src = c["d"], c["src"]
     if src == "list":
@@ -255,6 +258,8 @@ def build_mesh(c):
         mesh = ColouredTriMesh(P, trilist=T, colours=colours)
     else:
         mesh = TexturedTriMesh(P, tcoords, texture, trilist=T)
+    if c.get("tl_dtype"):
+        mesh.trilist = np.asarray(mesh.trilist).astype(c["tl_dtype"])
     lms = []
     for nm, pts in c["lms"]:
         a = np.array(pts, dtype=float)
@@ -415,6 +420,9 @@ def c_mask(case, ctx):
         res = mesh.from_tri_mask(arg)
     dd = parameter_mutation(before, digest(mesh))
     ctx.expect(dd is None, "mask.receiver_mutated", lambda: repr(dd))
+    want_arg = np.array(vm if tmask is None else tmask, dtype=bool)
+    ctx.expect(arg.dtype == bool and np.array_equal(arg, want_arg), "mask.argument_mutated",
+               lambda: "the caller's mask array was changed by the call: %s -> %s" % (want_arg.astype(int).tolist(), arg.astype(int).tolist()))
     ctx.expect(type(res) is type(mesh), "mask.result_class", type(res).__name__)
 
     RP = np.asarray(res.points)
